@@ -449,6 +449,8 @@ class CallsMixin:
         r.lay = self.lay_reshape(a, new, order, node)
         r.delta = self.delta_reshape(a, new, order)
         r.cnt = a.cnt
+        if a.note == 'input':
+            r.note = 'input'        # reshaped raw caller data is raw data
         return r
 
     def delta_reshape(self, a, new, order):
@@ -1345,7 +1347,7 @@ class CallsMixin:
             self.division(out, a, b, node, env)
         return r
 
-    def n_maximum(self, pos, kw, node, env):
+    def n_minimum(self, pos, kw, node, env):
         a, b = self.as_arr(pos[0]), self.as_arr(pos[1])
         dims = self.broadcast(a.dims, b.dims, node)
         r = ARR(dims, promote_dt(a, b), taint=a.taint | b.taint)
@@ -1355,7 +1357,16 @@ class CallsMixin:
                 r.nonneg = True
         return r
 
-    n_minimum = n_maximum
+    def n_maximum(self, pos, kw, node, env):
+        r = self.n_minimum(pos, kw, node, env)
+        # max(spectrum, 0): the clamped eigenvalues
+        for x, y in ((pos[0], pos[1]), (pos[1], pos[0])):
+            if x.k == 'arr' and x.orth == 'eig' and y.has_const() and \
+                    isinstance(y.c, (int, float)) and y.c == 0:
+                r.orth = 'eig'
+                r.src = x.src
+                r.lg, r.unit, r.deg = x.lg, x.unit, x.deg
+        return r
 
     def n_clip(self, pos, kw, node, env):
         a = self.as_arr(pos[0])
